@@ -278,7 +278,7 @@ pub fn format_blame_metadata(
                 }))
             }
             Some(Placeholder::Str("author")) => Some(Cow::from(blame.author)),
-            Some(Placeholder::Str("commit")) => Some(delta::format_raw_line(blame.commit, config)),
+            Some(Placeholder::Str("commit")) => Some(Cow::from(blame.commit)),
             None => None,
             _ => unreachable!("Unexpected `git blame` input"),
         };
@@ -287,12 +287,19 @@ pub fn format_blame_metadata(
             // Wide characters make the difference negative: add before subtracting.
             let padded_width = (width + field.as_ref().chars().count())
                 .saturating_sub(UnicodeWidthStr::width(field.as_ref()));
-            s.push_str(&format::pad(
+            let padded = format::pad(
                 &field,
                 padded_width,
                 alignment_spec,
                 placeholder.precision,
-            ))
+            );
+            // The commit is linked after it has been padded and abbreviated: a precision counts
+            // chars, it must not see (and cut) the escape sequences of the hyperlink.
+            if placeholder.placeholder == Some(Placeholder::Str("commit")) {
+                s.push_str(&delta::format_raw_line(&padded, config))
+            } else {
+                s.push_str(&padded)
+            }
         }
         suffix = placeholder.suffix.as_str();
     }
